@@ -6,8 +6,9 @@ package c19
 
 import (
 	"fmt"
+	"math"
 	"os"
-	"sort"
+	"strconv"
 	"testing"
 	"time"
 
@@ -116,14 +117,47 @@ func waitDone(p *harness.Proc, id string, aggs []model.AggSpec) (*harness.PResp,
 	}
 }
 
-// aggKey: a canonical form of one aggregation result (bucket order is not significant)
-func aggKey(a harness.AggOut) string {
-	var rows []string
-	for _, b := range a.Buckets {
-		rows = append(rows, fmt.Sprintf("%q@%d=%s%v/%d", b.Name, b.MID, b.Value, b.Quantiles, b.NotExists))
+// aggDiff compares two aggregation results of the same request: same buckets (order is not
+// significant), equal counters, values equal up to the rounding of a different summation
+// order (relative 1e-9, as harness.CompareAgg allows against the model).
+func aggDiff(a, b harness.AggOut) string {
+	if a.NotExists != b.NotExists {
+		return fmt.Sprintf("not_exists %d vs %d", a.NotExists, b.NotExists)
 	}
-	sort.Strings(rows)
-	return fmt.Sprintf("not_exists=%d %v", a.NotExists, rows)
+	if len(a.Buckets) != len(b.Buckets) {
+		return fmt.Sprintf("%d buckets vs %d", len(a.Buckets), len(b.Buckets))
+	}
+	key := func(x harness.AggBucket) string { return fmt.Sprintf("%q@%d", x.Name, x.MID) }
+	near := func(x, y string) bool {
+		if x == y {
+			return true
+		}
+		f, e1 := strconv.ParseFloat(x, 64)
+		g, e2 := strconv.ParseFloat(y, 64)
+		if e1 != nil || e2 != nil {
+			return false
+		}
+		return math.Abs(f-g) <= 1e-9*math.Max(math.Abs(f), math.Abs(g))
+	}
+	bm := map[string]harness.AggBucket{}
+	for _, x := range b.Buckets {
+		bm[key(x)] = x
+	}
+	for _, x := range a.Buckets {
+		y, ok := bm[key(x)]
+		if !ok {
+			return "bucket " + key(x) + " only on one side"
+		}
+		if x.NotExists != y.NotExists || !near(x.Value, y.Value) || len(x.Quantiles) != len(y.Quantiles) {
+			return fmt.Sprintf("bucket %s: %s %v /%d vs %s %v /%d", key(x), x.Value, x.Quantiles, x.NotExists, y.Value, y.Quantiles, y.NotExists)
+		}
+		for i := range x.Quantiles {
+			if !near(x.Quantiles[i], y.Quantiles[i]) {
+				return fmt.Sprintf("bucket %s: quantiles %v vs %v", key(x), x.Quantiles, y.Quantiles)
+			}
+		}
+	}
+	return ""
 }
 
 // compare: ids and histogram against the model; aggregations against the model too, or -
@@ -146,8 +180,8 @@ func compare(what string, r *harness.PResp, corpus model.Corpus, c *Case, dups b
 			return evid.Failf("aggs-missing", "[%s] %d aggregation results, the synchronous search gave %d", what, len(r.Aggs), len(aggRef.Aggs))
 		}
 		for i := range r.Aggs {
-			if g, w := aggKey(r.Aggs[i]), aggKey(aggRef.Aggs[i]); g != w {
-				return evid.Failf("agg-differs-from-sync", "[%s] agg %+v: got %s, the synchronous search gave %s", what, c.Aggs[i], g, w)
+			if d := aggDiff(r.Aggs[i], aggRef.Aggs[i]); d != "" {
+				return evid.Failf("agg-differs-from-sync", "[%s] agg %+v differs from what the synchronous search gave: %s", what, c.Aggs[i], d)
 			}
 		}
 		return nil
@@ -288,7 +322,8 @@ func runCase(c Case) (evid.Result, error) {
 			}
 			if len(fr.Fracs) >= 2 && fr.Fracs[0].Sealed && fr.Fracs[0].Size > 0 && total > 2 {
 				lower := opts
-				lower.TotalSize = total - 1 // the first maintenance pass removes exactly the oldest fraction
+				lower.TotalSize = total - 1 // one maintenance pass removes exactly the oldest fraction
+				lower.NoMaintLoop = true    // exactly one pass at a time: the one asked for below
 				q, err := harness.OpenProcAsync(dir, lower, c.Fsync, false)
 				if err != nil {
 					return res, evid.Failf("no-start", "intermediate start with the lowered limit: %v", err)
